@@ -357,6 +357,9 @@ def option_classes_use_the_mixin(ctx, run, rule):
             fi = prog.lookup_method(cls, m_)
             if fi is not None and not fi.qualname.startswith((DB + "OptionMixin.", DB + "BaseDerivative.", "pfhedge.instruments.base.BaseInstrument.")):
                 bad.append(f"{m_} -> {fi.qualname}")
+            elif fi is not None and fi.qualname.rsplit(".", 1)[-1] != m_:
+                # the re-binding idiom `_set_attr_and_docstring(Cls, "name", Base.other)` puts another base-class method under this name
+                bad.append(f"{m_} is bound to {fi.qualname}")
         run.oblige(rule, f"{cls.rsplit('.', 1)[-1]}: path statistics, time grid and payoff plumbing are the base classes'", not bad, "; ".join(bad))
         if bad:
             ci = prog.classes[cls]
